@@ -324,10 +324,14 @@ def shard_fourindex(ctx, n):
     from iodata.utils import set_four_index_element
 
     sentinel = -7.25
-    for quad in itertools.product(range(n), repeat=4):
-        spec = {"kind": "four_index", "n": n, "idx": list(quad)}
+    for quad, vkind in itertools.product(itertools.product(range(n), repeat=4), ("generic", "zero", "negative")):
+        spec = {"kind": "four_index", "n": n, "idx": list(quad), "value": vkind}
         arr = np.full((n, n, n, n), sentinel)
         value = 1.0 + quad[0] + 0.1 * quad[1] + 0.01 * quad[2] + 0.001 * quad[3]
+        if vkind == "zero":
+            value = 0.0  # overwriting existing content with an exact zero is an assignment too
+        elif vkind == "negative":
+            value = -value
         problems = []
         try:
             set_four_index_element(arr, *quad, value)
